@@ -27,3 +27,33 @@ Definition literal_text (name : str) : str := DQ :: escape_js name ++ [DQ].
 (* ts_key: bare when is_identifier_name(name) (a Unicode test: the choice is a parameter here),
    a double-quoted escaped literal otherwise *)
 Definition key_text_of (bare : bool) (name : str) : str := if bare then name else literal_text name.
+
+(* ------------------------------------------------------------------ deepening round 7
+   the escape functions as written: five sequential str::replace(char, &str) calls (escape_js_filter,
+   escape_for_js, the quoted closure of ts_key_filter). The pattern characters are ASCII, so on UTF-8
+   bytes a replace of one character is the byte-wise map below. *)
+Definition replace1 (c : ascii) (rep : str) (s : str) : str := flat_map (fun x => if Ascii.eqb x c then rep else [x]) s.
+Definition escape_js_code (s : str) : str :=
+  replace1 TAB [BS; "t"] (replace1 CR [BS; "r"] (replace1 LF [BS; "n"] (replace1 DQ [BS; DQ] (replace1 BS [BS; BS] s)))).
+Definition quoted_code (name : str) : str := DQ :: escape_js_code name ++ [DQ].
+Definition ts_key_code (bare : bool) (name : str) : str := if bare then name else quoted_code name.
+
+(* one printed member: serialized name, the choice ts_key made, the optional marker and the text the
+   template prints after the colon (a TypeScript type in interface.tera, a Zod expression in schema.ts.tera) *)
+Record member := { m_name : str; m_bare : bool; m_opt : bool; m_value : str }.
+(* partials/interface.tera: what follows the opening brace of  export interface N {  *)
+Definition member_text (m : member) : str :=
+  LF :: L "  " ++ ts_key_code (m_bare m) (m_name m) ++ (if m_opt m then L "?" else []) ++ L ": " ++ m_value m ++ L ";".
+Definition interface_body (ms : list member) : str := flat_map member_text ms ++ [LF; "}"].
+Definition interface_text (n : str) (ms : list member) : str := L "export interface " ++ n ++ L " {" ++ interface_body ms.
+(* zod partials/schema.ts.tera: what follows  export const NSchema = z.object({  *)
+Definition prop_text (m : member) : str :=
+  LF :: L "  " ++ ts_key_code (m_bare m) (m_name m) ++ L ": " ++ m_value m ++ L ",".
+Definition zobject_body (ms : list member) : str := flat_map prop_text ms ++ LF :: L "});".
+Definition zobject_text (n : str) (ms : list member) : str := L "export const " ++ n ++ L "Schema = z.object({" ++ zobject_body ms.
+(* zod/generator.rs generate_enum_schema, non-empty variant list: the literals joined by comma and space *)
+Definition zenum_list (names : list str) : str := join (L ", ") (map quoted_code names).
+Definition zenum_text (n : str) (names : list str) : str := L "export const " ++ n ++ L "Schema = z.enum([" ++ zenum_list names ++ L "]);".
+(* partials/enum.tera with the code-level escape *)
+Definition alias_text (n : str) (names : list str) : str :=
+  L "export type " ++ n ++ L " = " ++ join (L " | ") (map quoted_code names) ++ L ";".
